@@ -488,8 +488,12 @@ func (f *Frame) checkStoreRec(scopes []*modScope, p *SVal, t types.Type, pos tok
 	case KArray:
 		at := t.Underlying().(*types.Array)
 		if elemTwoLevel(at.Elem()) {
+			lo, hi := bv64(0), bv64(at.Len())
+			if p.Off != "" {
+				lo, hi = p.Off, sApp("bvadd", p.Off, bv64(at.Len()))
+			}
 			for _, sc := range scopes {
-				f.oblige("modifies", g.matchElem(sc, elemFam(at.Elem()), p.Term, bv64(0), bv64(at.Len())), pos, "array store within "+sc.what)
+				f.oblige("modifies", g.matchElem(sc, elemFam(at.Elem()), p.Term, lo, hi), pos, "array store within "+sc.what)
 			}
 		}
 		return
